@@ -31,7 +31,8 @@ TRUSTED_BASE = [
     "Mathlib v4.33.0 for the imported lemmas",
     "tools/translate.py: the Gen/*.lean definitions are what the Rust source says (regenerated on every run)",
     "correspondence check (harness/clh against lean/cldrv) for everything modelled by hand",
-    "pairing side is modelled in exponent form; group elements are compared after materialisation g'^a with the amcl crate (a dependency, not code under test)",
+    "pairing side is modelled in exponent form (transfer principle: C19 pairing_equation_in_exponents; that amcl's groups meet its hypotheses is observed); group elements are compared after materialisation g'^a with the amcl crate (a dependency, not code under test)",
+    "RSA side: theorems are proved over any additive commutative group and transferred to the driver's group Int mod N by the proved refinement Zn.znOps_refines (C01 zn_refines_units ... presentation_complete_executable; C04, C05 *_executable / *_refines); proveMulti lifted for credentials over one modulus only",
     "amcl, OpenSSL, num-bigint, glass_pumpkin, serde, serde_json, rmp-serde, sha2 are dependencies whose behaviour is observed, not verified",
 ]
 
